@@ -3,9 +3,12 @@ import Driver.Util
 /-! Line-protocol driver for C09.
 
   `C09 hist <orig 0|1> <init> <ops>`
-    init : 6 comma separated on-disk dtypes (`u8 i16 i32 f32 f64`) or `-` (file absent), in the order
-           a.nii a.nii.gz b.nii a.img a.mgh a.mgz; file i starts with data id i, affine id i, tag 0, unscaled
-    ops  : comma separated  L<path 0-5><mmap 0|1>[@spelling] | F | U | E<k> | A<k> | H<k> | D<dt> | S<path>[@spelling] | B
+    init : 11 comma separated initial files `[>]<dt>[s]` (`>` big-endian header, dt ∈ `u8 i16 i32 f32 f64`, `s` written
+           from float data with scale factors) or `-` (file absent), in the order
+           a.nii a.nii.gz b.nii a.img a.mgh a.mgz s.img n.nii c.img.gz a.nii.bz2 b.nii.zst;
+           file i starts with data id i, affine id i, tag 0; s.img is an SPM2 Analyze pair, n.nii a NIfTI-2 file
+    ops  : comma separated  L<path 0-9a><mmap 0|1|2>[@spelling] | F | F4 | U | E<k> | A<k> | H<k> | D<dt> |
+           S<path>[@spelling] | B
   output: one token per op, then `live=…` and `fs=…` (nothing after the first `BAD`, also not after `live=BAD`).
 -/
 namespace Nb.Drv.C09
@@ -20,16 +23,21 @@ def showDT : DT → String
 
 def pathOf? (n : Nat) : Option Path := Path.all[n]?
 
-def pathIdx : Path → Nat
-  | .aNii => 0 | .aNiiGz => 1 | .bNii => 2 | .aImg => 3 | .aMgh => 4 | .aMgz => 5
+def hexDigit? (s : String) : Option Nat :=
+  if s = "a" then some 10 else if s.length = 1 then s.toNat? else none
 
-def parsePath? (s : String) : Option Path := s.toNat?.bind pathOf?
+def parsePath? (s : String) : Option Path := (hexDigit? s).bind pathOf?
+
+def showPathIdx (p : Path) : String :=
+  let n := pathIdx p
+  if n = 10 then "a" else toString n
 
 def showCls : Cls → String
-  | .nifti1 => "N1" | .pair => "NP" | .mgh => "MG"
+  | .nifti1 => "N1" | .pair => "NP" | .mgh => "MG" | .spm2 => "S2" | .nifti2 => "N2" | .pair2 => "P2"
 
 /-- `L01@3` / `S0@4`: the `@k` suffix selects one of several SPELLINGS of the same file (absolute, relative,
-    `./`, `sub/../`, symbolic link, hard link, header name of a pair); all spellings denote one abstract path -/
+    `./`, `sub/../`, symbolic link, hard link, header name of a pair) or ENTRY POINTS of the save (`img.to_filename`,
+    `img.to_file_map()`); all denote one abstract path / the same abstract save -/
 def stripSpelling (s : String) : String :=
   match s.splitOn "@" with
   | [a] => a
@@ -38,15 +46,17 @@ def stripSpelling (s : String) : String :=
 
 def parseOp? (s0 : String) : Option Op :=
   let s := stripSpelling s0
-  if s = "F" then some .fdata
+  if s = "F" then some (.fdata false)
+  else if s = "F4" then some (.fdata true)
   else if s = "U" then some .uncache
   else if s = "B" then some .toBytes
   else if s.startsWith "L" ∧ s.length = 3 then
     match parsePath? ((s.drop 1).take 1).toString, ((s.drop 2).toString) with
     | some p, "0" => some (.load p false)
-    | some p, "1" => some (.load p true)
+    | some p, "1" => some (.load p true)      -- mmap=True
+    | some p, "2" => some (.load p true)      -- mmap='r'
     | _, _ => none
-  else if s.startsWith "S" then (parsePath? (s.drop 1).toString).map Op.save
+  else if s.startsWith "S" ∧ s.length = 2 then (parsePath? (s.drop 1).toString).map Op.save
   else if s.startsWith "E" then ((s.drop 1).toString.toNat?).map Op.edit
   else if s.startsWith "A" then ((s.drop 1).toString.toNat?).map Op.setAff
   else if s.startsWith "H" then ((s.drop 1).toString.toNat?).map Op.hdrEdit
@@ -54,14 +64,23 @@ def parseOp? (s0 : String) : Option Op :=
   else none
 
 def opLetter : Op → String
-  | .load _ _ => "L" | .fdata => "F" | .uncache => "U" | .edit _ => "E" | .setAff _ => "A" | .hdrEdit _ => "H"
+  | .load _ _ => "L" | .fdata _ => "F" | .uncache => "U" | .edit _ => "E" | .setAff _ => "A" | .hdrEdit _ => "H"
   | .setDt _ => "D" | .save _ => "S" | .toBytes => "B"
 
-def showContent (c : Content) : String :=
-  toString c.data ++ "/" ++ toString c.aff ++ "/" ++ showDT c.dt ++ (if c.scaled then "s" else "") ++ "/" ++
-    toString c.tag
+def showAff (a : Nat) : String := if a = baseAff then "X" else toString a
 
-def showOut (op : Op) (im? : Option Img) : Out → String
+def showXF (c : Cls) (x : XF) : String :=
+  if c.isNifti then "s" ++ toString x.sc ++ "." ++ showAff x.sa ++ "q" ++ toString x.qc ++ "." ++ showAff x.qa
+  else "-"
+
+def showDTfull (dt : DT) (be scaled : Bool) : String :=
+  (if be then ">" else "") ++ showDT dt ++ (if scaled then "s" else "")
+
+def showContent (c : Content) : String :=
+  toString c.data ++ "/" ++ showAff c.aff ++ "/" ++ showDTfull c.dt c.be c.scaled ++ "/" ++
+    toString c.tag ++ "/" ++ showCls c.cls ++ "/" ++ showXF c.cls c.xf
+
+def showOut (op : Op) : Out → String
   | .noImg => "-"
   | .loadOk => "L:ok"
   | .loadErr => "L:ERR"
@@ -70,21 +89,24 @@ def showOut (op : Op) (im? : Option Img) : Out → String
   | .dtOk => "D:ok"
   | .dtErr => "D:ERR"
   | .saved c => (match op with
-      | .save q => "S:" ++ showContent c ++ "/" ++ showCls q.cls
+      | .save _ => "S:" ++ showContent c
       | _ => "bad-op")
-  | .bytes c => "B:" ++ showContent c ++ "/" ++ (match im? with | some im => showCls im.cls | none => "?")
+  | .bytes c => "B:" ++ showContent c
   | .bytesErr => "B:ERR"
   | .bad => opLetter op ++ ":BAD"
 
-def initFS (dts : List (Option DT)) : FS := fun p =>
+/-- one initial file: (dtype, big-endian, scaled) -/
+abbrev Init := DT × Bool × Bool
+
+def initFS (dts : List (Option Init)) : FS := fun p =>
   match dts[pathIdx p]? with
-  | some (some dt) => some (.intact { data := pathIdx p, aff := pathIdx p, dt := dt, scaled := false, tag := 0 })
+  | some (some (dt, be, sc)) => some (.intact (initContent p dt be sc))
   | _ => none
 
-def showFile (p : Path) : Option File → String
+def showFile : Option File → String
   | none => "-"
   | some .truncated => "T"
-  | some (.intact c) => showContent c ++ "/" ++ showCls p.cls
+  | some (.intact c) => showContent c
 
 def showLive (s : St) : String :=
   match s.img, probe s with
@@ -92,27 +114,40 @@ def showLive (s : St) : String :=
   | some _, none => "live=BAD"
   | some _, some none => "live=none"
   | some im, some (some (d, d2)) =>
-      "live=" ++ showCls im.cls ++ "/" ++ showDT im.dt ++ "/" ++ toString im.tag ++ "/" ++ toString im.aff ++ "/h" ++ toString im.hdrAff ++ "/" ++
-        (match im.fname with | some p => toString (pathIdx p) | none => "-") ++ "/" ++ toString d ++ "/" ++ toString d2
+      "live=" ++ showCls im.cls ++ "/" ++ showDTfull im.dt im.be false ++ "/" ++ toString im.tag ++ "/" ++
+        showAff im.aff ++ "/h" ++ (if im.cls = .spm2 then "X" else showAff im.hdrAff) ++ "/" ++ showXF im.cls im.xf ++ "/" ++
+        (match im.fname with | some p => showPathIdx p | none => "-") ++ "/" ++ toString d ++ "/" ++ toString d2
 
 /-- run, printing tokens; mirrors `Nb.C09.run` (stops at the first bad) -/
 def runShow (orig : Bool) : St → List Op → List String
   | s, [] =>
       let l := showLive s
       if l = "live=BAD" then [l]
-      else [l, "fs=" ++ ";".intercalate (Path.all.map (fun p => showFile p (s.fs p)))]
+      else [l, "fs=" ++ ";".intercalate (Path.all.map (fun p => showFile (s.fs p)))]
   | s, op :: rest =>
     match step orig s op with
-    | (.bad, _) => [showOut op s.img .bad]
-    | (o, s') => showOut op s.img o :: runShow orig s' rest
+    | (.bad, _) => [showOut op .bad]
+    | (o, s') => showOut op o :: runShow orig s' rest
 
-def parseInit? (s : String) : Option (List (Option DT)) :=
+def parseInit1? (t : String) : Option (Option Init) :=
+  if t = "-" then some none
+  else
+    let be := t.startsWith ">"
+    let t1 := if be then (t.drop 1).toString else t
+    let sc := t1.endsWith "s"
+    let t2 := if sc then (t1.dropEnd 1).toString else t1
+    (parseDT? t2).map (fun dt => some (dt, be, sc))
+
+def parseInit? (s : String) : Option (List (Option Init)) :=
   let parts := s.splitOn ","
-  if parts.length ≠ 6 then none
-  else parts.mapM (fun t => if t = "-" then some none else (parseDT? t).map some)
+  if parts.length ≠ Path.all.length then none
+  else parts.mapM parseInit1?
 
-def mghInitOk (dts : List (Option DT)) : Bool :=
-  (dts.drop 4).all (fun d => d != some DT.f64)
+/-- MGH files are float32/int32/int16/uint8, always big-endian, never scaled: no flags accepted -/
+def mghInitOk (dts : List (Option Init)) : Bool :=
+  ((dts.drop 4).take 2).all (fun d => match d with
+    | none => true
+    | some (dt, be, sc) => dt != DT.f64 && !be && !sc)
 
 def handle : List String → String
   | ["hist", orig, init, ops] =>
